@@ -225,6 +225,9 @@ func (sc *Scen) stepNamed(n string) {
 		sc.stepRestart()
 	case "duplicate":
 		sc.stepDuplicate()
+	default:
+		// steps registered by per-property files (harness/fsm_ext.go)
+		runExtraStep(sc, n)
 	}
 }
 
@@ -663,11 +666,12 @@ func runScenario(seed uint64, idx int, dbpath string, focus string) (sc *Scen, e
 		sc.role, sc.chain, sc.clean = d.role, d.chain, true
 		env.SwapsAllowed, env.PeerAllowed, env.PeerSuspicious, env.LiquidEnabled, env.BitcoinEnabled, env.MinAmountMsat = true, true, false, true, true, 100000*1000
 		for _, st := range d.steps {
-			if st != "start" && st != "request" && sc.id == nil {
+			if st != "start" && st != "request" && !isFreshExtraStep(st) && sc.id == nil {
 				break
 			}
 			sc.stepNamed(st)
 		}
+		runScenarioTail(sc, focus)
 		return sc, nil
 	}
 	if sc.role == "out_sender" || sc.role == "in_sender" {
@@ -678,6 +682,7 @@ func runScenario(seed uint64, idx int, dbpath string, focus string) (sc *Scen, e
 	if sc.id == nil {
 		return sc, nil
 	}
+	defer runScenarioTail(sc, focus)
 	for i := 0; i < 10; i++ {
 		sc.advanceChain()
 		m := sc.current()
